@@ -260,6 +260,29 @@ ROUND3 = {
 }
 
 
+# clauses added after the fourth round (DESIGN.md section 10.3)
+ROUND4 = {
+    "C01": "stats() with band limits = statistics of one split spectrum; Stokes-drift components related by theta - 90; wavenumber polynomial checked by coefficient / power pairing.",
+    "C02": "Peak parameters through stats() come from the split spectrum; no peak parameter masked by an absolute energy threshold; a one-frequency tail window keeps its frequency.",
+    "C03": "(shared) the wavenumber polynomial behind the wind-sea test sums every coefficient with its own power.",
+    "C04": "The level loop cannot exit before flooding its level; no file-scope / static object in the C wrapper.",
+    "C05": "No flatten / ravel / reshape in memory or Fortran order.",
+    "C06": "One peak locator whatever the number of non-spectral dimensions; generator conditions over per-spectrum data are branches on data; fresh label map per call.",
+    "C07": "No store through .values / .data (lost on dask-backed data); no process-wide setting changed inside a dask task without a lock (found and repaired: fit_jonswap / fit_gaussian).",
+    "C08": "Circular bin widths and index-order flattening in the regridding kernels.",
+    "C09": "Independent insertion of the two band cutoffs; stats() dispatch; wavenumber polynomial.",
+    "C10": "Ratio statistics use one quadrature; scale_by_hs narrows its condition.",
+    "C11": "Circular bin widths; longitudes written as given.",
+    "C12": "Direction conventions converted by re-labelling, never by rolling data.",
+    "C13": "Reader objects allocate element-wise filled attributes unconditionally; interp_spec never returns its input.",
+    "C15": "Divisors behind a lower limiter have a positive floor; the TMA depth function has no inf/inf quotient.",
+    "C16": "Input returned unsmoothed only for windows (1, 1); dimension order restored after a transpose; windows forwarded by every caller.",
+    "C18": "No process-wide setting changed inside a dask task without a lock; nothing in the C wrapper outlives a call.",
+    "C19": "Per-site count is the tracker's own output; unit-safe time step.",
+    "C20": "GIL held for the native call; availability test before list.remove; spectral dimensions tested against .dims.",
+}
+
+
 def main():
     props = [json.loads(l) for l in open(os.path.join(HERE, "properties.jsonl"))]
     checks, na = [], []
@@ -274,7 +297,7 @@ def main():
                 "evidence_file": f"/verif/evidence/{pid}.json",
                 "replay_cmd_template": f"./vcheck {pid} --explain 0  # replay file: {{path}}",
                 "engine": "vsa",
-                "level_claimed": {"category": c[1], "text": (c[2] + " " + ROUND3.get(pid, "")).strip(), "design_ref": c[5]},
+                "level_claimed": {"category": c[1], "text": (c[2] + " " + ROUND3.get(pid, "") + (" Round 4: " + ROUND4[pid] if pid in ROUND4 else "")).strip(), "design_ref": c[5]},
                 "level_note": COMMON_TRUST + c[3],
                 "technique": c[4],
             })
